@@ -37,10 +37,10 @@ ASSUMPTIONS = ["P1, P4, P8", "emptiness of ambiguous results is excluded (counte
 def cfg(tier, which):
     n = 7 if tier == "quick" else 12
     if which == "sql":
-        return Cfg(engines=(0,), max_ops=n, p_binary=0.3, avoid=frozenset(["D11"]), markers=("mat",), p_plit=25, p_wrap=30)
+        return Cfg(engines=(0,), max_ops=n, p_binary=0.3, avoid=frozenset(["D11"]), markers=("mat",), p_plit=25, p_wrap=30, p_member=8)
     if which == "iter":
-        return Cfg(engines=(1, 2), binary=("chain",), markers=("mat", "xfer"), max_ops=n, p_binary=0.2, p_plit=25, p_wrap=30)
-    return Cfg(engines=(0, 1, 2), binary=("chain",), markers=("mat", "xfer", "xfer"), max_ops=n, p_binary=0.2, avoid=frozenset(["D11"]), p_plit=25, p_wrap=30)
+        return Cfg(engines=(1, 2), binary=("chain",), markers=("mat", "xfer"), max_ops=n, p_binary=0.2, p_plit=25, p_wrap=30, p_member=8)
+    return Cfg(engines=(0, 1, 2), binary=("chain",), markers=("mat", "xfer", "xfer"), max_ops=n, p_binary=0.2, avoid=frozenset(["D11"]), p_plit=25, p_wrap=30, p_member=8)
 
 
 def budget(tier):
